@@ -289,8 +289,59 @@ func consensusWrittenFields(w *World, x *ExecCtx) map[string][]string {
 			k := e.Owner.Obj().Name() + "." + e.Field
 			out[k] = append(out[k], w.FName(fn)+"@"+site(w, e.In))
 		}
+		// a field that holds a pointer to an object of a dependency's type which block
+		// execution mutates in place (pointer-receiver method of that type, or the
+		// pointer handed to a dependency's function): the object's state is in-memory
+		// state just like the field itself
+		for _, c := range CallsIn(fn) {
+			cal := c.Common().StaticCallee()
+			if cal == nil || w.InModule(cal) || cal.Pkg == nil {
+				continue
+			}
+			for i, a := range c.Common().Args {
+				ld, ok := stripConv(a).(*ssa.UnOp)
+				if !ok || ld.Op != token.MUL {
+					continue
+				}
+				fa, ok := ld.X.(*ssa.FieldAddr)
+				if !ok {
+					continue
+				}
+				n, f := fieldOf(fa.X.Type(), fa.Field)
+				if n == nil || f == nil || !isCSType(n) || baseFresh(fa.X) {
+					continue
+				}
+				pt, isPtr := f.Type().Underlying().(*types.Pointer)
+				if !isPtr {
+					continue
+				}
+				en, _ := pt.Elem().(*types.Named)
+				if en == nil || en.Obj().Pkg() == nil || (en.Obj().Pkg().Path() == modPath || strings.HasPrefix(en.Obj().Pkg().Path(), modPath+"/")) || opaqueHandlePkg(en.Obj().Pkg().Path()) {
+					continue
+				}
+				// receiver of a value-receiver method does not mutate
+				if i == 0 && cal.Signature.Recv() != nil {
+					if _, ptrRecv := cal.Signature.Recv().Type().(*types.Pointer); !ptrRecv {
+						continue
+					}
+				}
+				k := n.Obj().Name() + "." + f.Name()
+				out[k] = append(out[k], w.FName(fn)+"@"+site(w, c))
+			}
+		}
 	}
 	return out
+}
+
+// opaqueHandlePkg: dependency types whose objects are handles to durable or
+// stateless services (their in-memory state is not consensus state).
+func opaqueHandlePkg(path string) bool {
+	for _, p := range []string{"sync", "github.com/tendermint/tendermint/libs/log", "github.com/tendermint/tm-db", "github.com/ethereum/go-ethereum/ethdb", "github.com/cosmos/iavl", "github.com/ethereum/go-ethereum/trie", "github.com/ethereum/go-ethereum/core/rawdb", "github.com/ethereum/go-ethereum/params"} {
+		if path == p || strings.HasPrefix(path, p+"/") {
+			return true
+		}
+	}
+	return false
 }
 
 // blockScoped: a store to owner.field always executes in a BeginBlock handler
@@ -390,7 +441,7 @@ func checkC07(w *World, r *Report) {
 	// R-3 = C01 D-6: the overlay cache must equal the tree, or a restart (which
 	// empties the cache) changes what execution reads
 	fns := consFuncs(x)
-	if r.importObs(w, func(t *Report) { d6(w, t, x, fns); d6b(w, t) }, "D-6", "R-3") == 0 {
+	if r.importObs(w, func(t *Report) { d6(w, t, x, fns); d6b(w, t); d6c(w, t, x, fns); d6d(w, t, fns) }, "D-6", "R-3") == 0 {
 		r.Undecided("R-3", "write-back", "write-back analysis produced no obligation")
 	}
 	startupLag(w, r, "R-1")
@@ -453,7 +504,75 @@ func r1(w *World, r *Report, x *ExecCtx) {
 			continue
 		}
 		r.Violate("R-1", key, "in-memory state that influences block execution is not reconstructed from persisted state at start-up: "+p.witness[owner+"."+field], nil, sites...)
+		// every controller entry point through which block execution READS that state is a
+		// place where a restarted node can answer differently: one obligation per entry, so
+		// that a new use of the state is a new violation
+		for _, ent := range w.fieldReadEntries(x, owner, field) {
+			r.Violate("R-1", key+":read-in:"+ent.name, "block execution reads this state here, so after a restart (when it is empty / stale) this entry point can act differently from a node that was never restarted", nil, ent.site)
+		}
 	}
+}
+
+type readEntry struct{ name, site string }
+
+// fieldReadEntries: the exported methods of the owner's package (controller entry
+// points) that run in consensus context and read owner.field — themselves or
+// through functions of the same package they call.
+func (w *World) fieldReadEntries(x *ExecCtx, owner, field string) []readEntry {
+	reads := func(fn *ssa.Function) string {
+		for _, b := range fn.Blocks {
+			for _, in := range b.Instrs {
+				fa, ok := in.(*ssa.FieldAddr)
+				if !ok {
+					continue
+				}
+				n, f := fieldOf(fa.X.Type(), fa.Field)
+				if n == nil || f == nil || n.Obj().Name() != owner || f.Name() != field || fa.Referrers() == nil {
+					continue
+				}
+				for _, ref := range *fa.Referrers() {
+					if ld, isLd := ref.(*ssa.UnOp); isLd && ld.Op == token.MUL {
+						return site(w, ld)
+					}
+				}
+			}
+		}
+		return ""
+	}
+	var out []readEntry
+	for _, fn := range x.funcs {
+		if x.entry[fn]&polT == 0 || fn.Parent() != nil || fn.Signature.Recv() == nil || !token.IsExported(fn.Name()) {
+			continue
+		}
+		pkg := w.FuncPkgPath(fn)
+		seen := map[*ssa.Function]bool{}
+		where := ""
+		var walk func(f *ssa.Function, d int)
+		walk = func(f *ssa.Function, d int) {
+			if f == nil || f.Blocks == nil || seen[f] || d > 4 || where != "" {
+				return
+			}
+			seen[f] = true
+			if s := reads(f); s != "" {
+				where = s
+				return
+			}
+			for _, a := range f.AnonFuncs {
+				walk(a, d+1)
+			}
+			for _, c := range CallsIn(f) {
+				if cal := c.Common().StaticCallee(); cal != nil && w.FuncPkgPath(cal) == pkg && (cal.Parent() != nil || !token.IsExported(cal.Name()) || cal.Signature.Recv() == nil) {
+					walk(cal, d+1)
+				}
+			}
+		}
+		walk(fn, 0)
+		if where != "" {
+			out = append(out, readEntry{w.FName(fn), where})
+		}
+	}
+	sort.Slice(out, func(i, j int) bool { return out[i].name < out[j].name })
+	return out
 }
 
 func r2(w *World, r *Report) {
@@ -1180,7 +1299,7 @@ func checkC10(w *World, r *Report) {
 	r1(w, rep, x)
 	n := 0
 	for _, o := range rep.Obs {
-		if strings.HasSuffix(o.Key, "StakeCtrler.lastValidators") || strings.HasSuffix(o.Key, "StakeCtrler.allDelegatees") {
+		if strings.Contains(o.Key, "StakeCtrler.lastValidators") || strings.Contains(o.Key, "StakeCtrler.allDelegatees") {
 			o.Rule = "U-4"
 			o.Key = "U-4:" + strings.TrimPrefix(o.Key, "R-1:")
 			r.Obs = append(r.Obs, o)
@@ -1191,6 +1310,9 @@ func checkC10(w *World, r *Report) {
 		r.Undecided("U-4", "fields", "lastValidators / allDelegatees not found among the fields written during block execution")
 	}
 	startupLag(w, r, "U-4")
+	// U-5: a validator that was removed (all stake moved out, record deleted) is gone from
+	// the candidates of the following blocks: its record is not written back after the deletion
+	importNoResurrect(w, r, "U-5")
 	r.Floor("U-1", 5, "selection")
 	r.Floor("U-2", 9, "merge-diff decision table")
 	r.Floor("U-3", 3, "hand-over to consensus")
